@@ -554,3 +554,48 @@ func ContainsCanon(s, w string) bool {
 // RootKey returns the key of the declared function f belongs to.
 func (f *Func) RootKey() string { return f.Root().Key }
 
+
+// LooseSuffix returns the part of a canonical key after its function, with the positional tokens (‹recv›, ‹pN›, ‹resN›)
+// replaced by the type of the variable they stand for: the form in which a construct keeps its name when it is moved
+// into another function (where the value arrives through another parameter position).
+func (p *Prog) LooseSuffix(key string) string {
+	root := p.RootFuncOfKey(key)
+	if root == "" {
+		return key
+	}
+	f := p.Funcs[root]
+	suffix := key[len(root):]
+	if f == nil || f.Decl == nil {
+		return suffix
+	}
+	info := f.Pkg.TypesInfo
+	repl := map[string]string{}
+	mark := func(fl *ast.FieldList, prefix string) {
+		if fl == nil {
+			return
+		}
+		idx := 0
+		for _, fd := range fl.List {
+			if len(fd.Names) == 0 {
+				idx++
+			}
+			for _, nm := range fd.Names {
+				tok := "‹" + prefix + itoa(idx) + "›"
+				if prefix == "recv" {
+					tok = "‹recv›"
+				}
+				if o := info.Defs[nm]; o != nil {
+					repl[tok] = "‹" + types.TypeString(o.Type(), qual) + "›"
+				}
+				idx++
+			}
+		}
+	}
+	mark(f.Decl.Recv, "recv")
+	mark(f.Decl.Type.Params, "p")
+	mark(f.Decl.Type.Results, "res")
+	for k, v := range repl {
+		suffix = strings.ReplaceAll(suffix, k, v)
+	}
+	return suffix
+}
